@@ -106,7 +106,8 @@ type checker struct {
 	// the entry it was started for has been removed must change nothing, even if the same id is an entry
 	// again; the monitor cannot see which incarnation a held ping belongs to, so both outcomes are allowed
 	// for ids removed since (well before) the ping was first seen.
-	lastRemoved map[enode.ID]int
+	lastRemoved  map[enode.ID]int
+	staleAnswers int // liveness answers that arrived for an entry object that had been replaced meanwhile
 }
 
 func failKey(id enode.ID, ip netip.Addr) string { return string(id[:]) + ip.String() }
@@ -234,9 +235,25 @@ func (c *checker) apply(st tabledrv.Step, before portalwire.VerifTableSnap) (ms 
 		if i < 0 {
 			return [][]mbucket{m}, false // removed while being checked: the answer must change nothing
 		}
+		// The check was started for one particular entry object. When the id is carried by a different
+		// object now (removed and added again while the check was in flight), the answer belongs to an
+		// entry that no longer exists and must change nothing. The table loop reports the object a check is
+		// started for through the verif hook, so the monitor knows which case applies.
 		var stale [][]mbucket
-		if lr, ok := c.lastRemoved[st.Pinged]; ok && lr >= st.PingSeenAt-200 {
-			stale = [][]mbucket{m} // possibly an answer for an earlier incarnation of this id: no change
+		cur := uintptr(0)
+		for _, e := range before.Buckets[bi].Entries {
+			if e.ID == st.Pinged {
+				cur = e.Inc
+			}
+		}
+		switch {
+		case st.PingInc != 0 && cur != 0 && st.PingInc != cur:
+			c.staleAnswers++
+			return [][]mbucket{m}, false
+		case st.PingInc == 0 || cur == 0:
+			if lr, ok := c.lastRemoved[st.Pinged]; ok && lr >= st.PingSeenAt-200 {
+				stale = [][]mbucket{m} // identity not observed: both outcomes are allowed
+			}
 		}
 		if !st.Alive {
 			// failed liveness check: the entry stays with no more credit than before, or leaves (credit exhausted)
@@ -477,6 +494,8 @@ func run(r *lib.Run) {
 			}
 			mu.Unlock()
 			r.Count("ping_replies_not_observed", st.PingsUnacked)
+			r.Count("liveness_answers_for_replaced_entry_object", o.c.staleAnswers)
+			r.Count("entries_replaced_while_liveness_check_in_flight", st.Swaps)
 			if i == 0 {
 				r.Sample(map[string]any{"class": "serial history", "steps": st.Steps, "ops": st.Kinds, "trace_head": st.Trace[:min(12, len(st.Trace))]})
 			}
